@@ -14,6 +14,56 @@ pub fn generate(family: &str, seed: u64, n: usize) -> Vec<String> {
                 out.push(format!("parse ops {}", shex(&s)));
             }
         }
+        "mat" => {
+            while out.len() < n {
+                out.push(gen_mat_req(&mut rng));
+            }
+        }
+        "wrap" => {
+            // exhaustive edge set first
+            let edges = wrap_edges();
+            for &x in edges.iter() {
+                for &y in [0.25, -0.5].iter() {
+                    out.push(format!("wrap xy {} {} {} {}", fhex(1.0), fhex(-0.5), fhex(x), fhex(y)));
+                }
+            }
+            while out.len() < n {
+                let (p, o) = if rng.chance(4, 5) { (1.0, -0.5) } else { (*rng.pick(&[1.0, 2.0, 0.5, 3.0, 0.1]), *rng.pick(&[-0.5, 0.0, -1.0, 0.25])) };
+                let x = gen_wrap_coord(&mut rng);
+                let y = gen_wrap_coord(&mut rng);
+                out.push(format!("wrap xy {} {} {} {}", fhex(p), fhex(o), fhex(x), fhex(y)));
+            }
+        }
+        "cell" => {
+            while out.len() < n {
+                out.push(gen_cell_req(&mut rng));
+            }
+        }
+        "site" => {
+            while out.len() < n {
+                out.push(gen_site_req(&mut rng));
+            }
+        }
+        "rng" => {
+            for seed in 0..8u64 {
+                out.push(format!("rng raw {} 64", seed));
+            }
+            while out.len() < n {
+                let seed = match rng.below(3) { 0 => rng.below(200), 1 => rng.next(), _ => rng.below(1 << 32) };
+                out.push(match rng.below(5) {
+                    0 => format!("rng raw {} {}", seed, 1 + rng.below(200)),
+                    1 => format!("rng index {} {} {}", seed, 1 + rng.below(100), 1 + match rng.below(3) { 0 => rng.below(12), 1 => rng.below(1000), _ => rng.next() >> rng.below(60) }),
+                    2 => format!("rng range {} {}", seed, 1 + rng.below(100)),
+                    3 => format!("rng unit {} {}", seed, 1 + rng.below(100)),
+                    _ => format!("rng mixed {} {} {}", seed, 1 + rng.below(60), 1 + rng.below(12)),
+                });
+            }
+        }
+        "basis" => {
+            while out.len() < n {
+                out.push(gen_basis_req(&mut rng));
+            }
+        }
         "tables" => {
             for v in packing::wallpaper::WallpaperGroups::variants().iter() {
                 out.push(format!("tables group {}", v));
@@ -259,4 +309,260 @@ pub fn gen_denoted(rng: &mut Rng) -> (String, [f64; 6]) {
         text.push(')');
     }
     (text, coeffs)
+}
+
+// ---------------------------------------------------------------- mat / wrap / cell / site
+
+pub const GROUPS: [&str; 7] = ["p1", "p2", "p1m1", "p1g1", "p2mm", "p2mg", "p2gg"];
+pub const FAMILIES: [&str; 4] = ["Monoclinic", "Orthorhombic", "Hexagonal", "Tetragonal"];
+
+pub fn mat9(v: [f64; 9]) -> String {
+    v.iter().map(|x| fhex(*x)).collect::<Vec<_>>().join(" ")
+}
+
+/// a scalar of mixed class: small integers, halves, moderate reals, occasionally extreme
+pub fn gen_scalar(rng: &mut Rng) -> f64 {
+    match rng.below(10) {
+        0 => 0.0,
+        1 => *rng.pick(&[1.0, -1.0, 0.5, -0.5, 2.0, -0.0]),
+        2..=6 => rng.range(-3.0, 3.0),
+        7 => rng.range(-100.0, 100.0),
+        8 => rng.logmag(-12.0, 12.0) * if rng.chance(1, 2) { -1.0 } else { 1.0 },
+        _ => rng.range(-1.0, 1.0) * 1e-3,
+    }
+}
+
+/// the real crate's table operations of a group, as row-major 9-vectors
+pub fn group_mats(name: &str) -> Vec<[f64; 9]> {
+    let (_, _, _, mats) = crate::oracle::group_ops(name).expect("group");
+    mats.iter()
+        .map(|m| [m[(0, 0)], m[(0, 1)], m[(0, 2)], m[(1, 0)], m[(1, 1)], m[(1, 2)], m[(2, 0)], m[(2, 1)], m[(2, 2)]])
+        .collect()
+}
+
+pub fn gen_matrix(rng: &mut Rng) -> [f64; 9] {
+    match rng.below(6) {
+        // a table operation
+        0 => {
+            let ms = group_mats(*rng.pick(&GROUPS));
+            ms[rng.usize(ms.len())]
+        }
+        // an isometry as Transform2::new builds it
+        1 | 2 => {
+            let a = gen_angle(rng);
+            let (s, c) = a.sin_cos();
+            [c, -s, gen_scalar(rng), s, c, gen_scalar(rng), 0.0, 0.0, 1.0]
+        }
+        // affine with last row 0 0 0 or 0 0 1
+        3 => {
+            let l = if rng.chance(1, 2) { 1.0 } else { 0.0 };
+            [gen_scalar(rng), gen_scalar(rng), gen_scalar(rng), gen_scalar(rng), gen_scalar(rng), gen_scalar(rng), 0.0, 0.0, l]
+        }
+        // fully general (projective row non-zero)
+        _ => {
+            let mut v = [0f64; 9];
+            for k in 0..9 {
+                v[k] = gen_scalar(rng);
+            }
+            v
+        }
+    }
+}
+
+pub fn gen_angle(rng: &mut Rng) -> f64 {
+    let pi = std::f64::consts::PI;
+    match rng.below(8) {
+        0 => 0.0,
+        1 => *rng.pick(&[pi / 2.0, pi, 2.0 * pi, pi / 6.0, pi / 3.0, pi / 4.0, 3.0 * pi / 2.0]),
+        2 => next_down(2.0 * pi),
+        3 => rng.range(-10.0, 10.0),
+        _ => rng.range(0.0, 2.0 * pi),
+    }
+}
+
+fn gen_mat_req(rng: &mut Rng) -> String {
+    match rng.below(6) {
+        0 | 1 => format!("mat mul {} {}", mat9(gen_matrix(rng)), mat9(gen_matrix(rng))),
+        2 => format!("mat apply {} {} {}", mat9(gen_matrix(rng)), fhex(gen_scalar(rng)), fhex(gen_scalar(rng))),
+        3 => format!("mat new {} {} {}", fhex(gen_angle(rng)), fhex(gen_scalar(rng)), fhex(gen_scalar(rng))),
+        4 => format!("mat position {}", mat9(gen_matrix(rng))),
+        _ => format!("mat periodic {} {} {}", mat9(gen_matrix(rng)), fhex(1.0), fhex(-0.5)),
+    }
+}
+
+fn wrap_edges() -> Vec<f64> {
+    let mut v = vec![];
+    let tiny = [f64::from_bits(1), 1e-300, 1e-17, 1e-16, 2.220446049250313e-16, 1e-9];
+    for &b in [0.5, 1.0, 1.5, 2.0, 0.25, 0.75].iter() {
+        for &s in [1.0, -1.0].iter() {
+            let x: f64 = s * b;
+            v.push(x);
+            v.push(next_up(x));
+            v.push(next_down(x));
+            v.push(next_up(next_up(x)));
+            v.push(next_down(next_down(x)));
+        }
+    }
+    v.push(0.0);
+    v.push(-0.0);
+    for &t in tiny.iter() {
+        v.push(t);
+        v.push(-t);
+        v.push(0.5 - t);
+        v.push(-0.5 + t);
+        v.push(-0.5 - t);
+        v.push(0.5 + t);
+    }
+    for &h in [1e15, 4503599627370496.5, 9007199254740992.0, 1e17, 1e300, 123456.789].iter() {
+        v.push(h);
+        v.push(-h);
+    }
+    v
+}
+
+pub fn gen_wrap_coord(rng: &mut Rng) -> f64 {
+    match rng.below(8) {
+        0 => {
+            let e = wrap_edges();
+            e[rng.usize(e.len())]
+        }
+        1 => rng.range(-3.0, 3.0),
+        2 => rng.range(-100.0, 100.0),
+        _ => rng.range(-0.75, 0.75),
+    }
+}
+
+/// (length, ratio, angle, family): the optimiser's box, 40 % of samples on its faces/edges
+pub fn gen_cell(rng: &mut Rng) -> (f64, f64, f64, &'static str) {
+    let pi = std::f64::consts::PI;
+    let length = match rng.below(6) {
+        0 => 0.01,
+        1 => rng.logmag(-2.0, 2.0),
+        _ => rng.range(0.5, 12.0),
+    };
+    let ratio = match rng.below(5) {
+        0 => 0.1,
+        1 => 1.0,
+        _ => rng.range(0.1, 1.0),
+    };
+    let fam = *rng.pick(&FAMILIES);
+    let angle = match (fam, rng.below(5)) {
+        ("Monoclinic", 0) => pi / 6.0,
+        ("Monoclinic", 1) => pi / 2.0,
+        ("Monoclinic", _) => rng.range(pi / 6.0, pi / 2.0),
+        ("Hexagonal", _) => pi / 3.0,
+        (_, 0) => rng.range(0.1, 3.0),
+        _ => pi / 2.0,
+    };
+    (length, ratio, angle, fam)
+}
+
+pub fn cell_str(c: (f64, f64, f64, &str)) -> String {
+    format!("{} {} {} {}", fhex(c.0), fhex(c.1), fhex(c.2), c.3)
+}
+
+fn gen_cell_req(rng: &mut Rng) -> String {
+    let c = gen_cell(rng);
+    match rng.below(10) {
+        0 => format!("cell cart {} {} {}", cell_str(c), fhex(gen_wrap_coord(rng)), fhex(gen_wrap_coord(rng))),
+        1 => format!("cell area {}", cell_str(c)),
+        2 => format!("cell ab {}", cell_str(c)),
+        3 => format!("cell center {}", cell_str(c)),
+        4 => format!("cell corners {}", cell_str(c)),
+        5 => format!("cell iso {} {}", cell_str(c), mat9(gen_matrix(rng))),
+        6 => format!("cell dof {}", cell_str(c)),
+        7 => format!("cell fromfamily {} {}", *rng.pick(&FAMILIES), fhex(rng.logmag(-1.0, 2.0))),
+        _ => {
+            // a wrapped placement and its images
+            let a = gen_angle(rng);
+            let (s, co) = a.sin_cos();
+            let m = [co, -s, rng.range(-0.5, 0.5), s, co, rng.range(-0.5, 0.5), 0.0, 0.0, if rng.chance(1, 2) { 0.0 } else { 1.0 }];
+            format!("cell images {} {} {} {}", cell_str(c), mat9(m), rng.below(8) as i64 - 1, rng.below(2))
+        }
+    }
+}
+
+/// site coordinate in [-1/2, 1/2] with the bounds and their neighbours over-represented
+pub fn gen_site_coord(rng: &mut Rng) -> f64 {
+    match rng.below(10) {
+        0 => 0.5,
+        1 => -0.5,
+        2 => *rng.pick(&[next_down(0.5), next_up(-0.5), 0.0, -0.0, 0.25, -0.25]),
+        3 => rng.range(-0.5, 0.5) * 1e-9,
+        _ => rng.range(-0.5, 0.5),
+    }
+}
+
+pub fn gen_site(rng: &mut Rng) -> (Vec<[f64; 9]>, f64, f64, f64) {
+    let ops = group_mats(*rng.pick(&GROUPS));
+    let a = match rng.below(6) {
+        0 => 0.0,
+        1 => 2.0 * std::f64::consts::PI,
+        _ => rng.range(0.0, 2.0 * std::f64::consts::PI),
+    };
+    (ops, gen_site_coord(rng), gen_site_coord(rng), a)
+}
+
+pub fn site_str(s: &(Vec<[f64; 9]>, f64, f64, f64)) -> String {
+    let ops: Vec<String> = s.0.iter().map(|m| mat9(*m)).collect();
+    format!("{} {} {} {} {}", s.0.len(), ops.join(" "), fhex(s.1), fhex(s.2), fhex(s.3))
+}
+
+fn gen_site_req(rng: &mut Rng) -> String {
+    let mut s = gen_site(rng);
+    match rng.below(8) {
+        0 => {
+            let ops: Vec<String> = s.0.iter().map(|m| mat9(*m)).collect();
+            format!("site fromwyckoff {} {}", s.0.len(), ops.join(" "))
+        }
+        1 => format!("site basis {} {}", site_str(&s), 1 + rng.below(6)),
+        2 => format!("site transform {}", site_str(&s)),
+        3 => {
+            // coordinates outside the bounds (lattice-shifted), large orientations
+            s.1 += (rng.below(7) as f64) - 3.0;
+            s.2 += (rng.below(7) as f64) - 3.0;
+            s.3 += 2.0 * std::f64::consts::PI * ((rng.below(5) as f64) - 2.0);
+            format!("site positions {}", site_str(&s))
+        }
+        _ => format!("site positions {}", site_str(&s)),
+    }
+}
+
+// ---------------------------------------------------------------- basis
+
+fn gen_basis_req(rng: &mut Rng) -> String {
+    let nc = 1 + rng.usize(4);
+    let mut s = format!("basis seq {}", nc);
+    let mut vals = vec![];
+    for _ in 0..nc {
+        let v = rng.range(-1.0, 1.0);
+        vals.push(v);
+        s.push_str(&format!(" {}", fhex(v)));
+    }
+    // handles: sometimes two handles on one cell (shared parameter)
+    let nh = 1 + rng.usize(5);
+    s.push_str(&format!(" {}", nh));
+    for _ in 0..nh {
+        let a = rng.usize(nc);
+        let (lo, hi) = match rng.below(4) {
+            0 => (-0.5, 0.5),
+            1 => (0.0, 1.0),
+            2 => (vals[a] - rng.range(0.0, 0.3), vals[a] + rng.range(0.0, 0.3)),
+            _ => (rng.range(-1.0, 0.0), rng.range(0.0, 1.0)),
+        };
+        s.push_str(&format!(" {} {} {}", a, fhex(lo), fhex(hi)));
+    }
+    let nops = 1 + rng.usize(24);
+    s.push_str(&format!(" {}", nops));
+    for _ in 0..nops {
+        let h = rng.usize(nh);
+        match rng.below(10) {
+            0..=3 => s.push_str(&format!(" set {} {}", h, fhex(match rng.below(4) { 0 => rng.range(-2.0, 2.0), 1 => rng.range(-0.5, 0.5), 2 => *rng.pick(&[f64::INFINITY, f64::NEG_INFINITY, 0.5, -0.5, 0.0]), _ => rng.range(-1.0, 1.0) }))),
+            4..=6 => s.push_str(&format!(" reset {}", h)),
+            7 => s.push_str(&format!(" get {}", h)),
+            8 => s.push_str(&format!(" sample {} {} {:016x}", h, fhex(rng.logmag(-3.0, 1.0)), rng.next())),
+            _ => s.push_str(&format!(" setsampled {} {} {:016x}", h, fhex(rng.logmag(-3.0, 1.0)), rng.next())),
+        }
+    }
+    s
 }
